@@ -244,7 +244,11 @@ func c09Gen(rt *rapid.T) *hist.Case {
 		case 0, 1, 2, 3:
 			return hist.Action{Kind: "publish", Client: 1, Topic: pick(rt, "topic", []string{"t/a", "t/b"}), QoS: byte(rapid.IntRange(1, 2).Draw(rt, "qos"))}
 		case 4, 5, 6:
-			return hist.Action{Kind: "ack", Client: 0, Index: rapid.IntRange(0, 4).Draw(rt, "idx")}
+			a := hist.Action{Kind: "ack", Client: 0, Index: rapid.IntRange(0, 4).Draw(rt, "idx")}
+			if ver == 5 && rapid.IntRange(0, 4).Draw(rt, "failure-code") == 0 {
+				a.Reason = pick(rt, "reason", []byte{0x80, 0x83, 0x97}) // an acknowledgement all the same: it ends the exchange
+			}
+			return a
 		case 7:
 			return hist.Action{Kind: pick(rt, "how", []string{"drop", "close"}), Client: 0}
 		case 8, 9:
